@@ -23,7 +23,10 @@ tie:   (1) translator harness/translate/routes.py (route table from decorators, 
            on a state where every task has invocations in several statuses;
        (5) everything again on states that have AGED: the clock of pynenc/pynmon is put ahead of every
            configured duration (retention, dead-runner, stuck-invocation thresholds) while the page is
-           served (controlled clock, nothing sleeps), incl. states with exactly one finished invocation.
+           served (controlled clock, nothing sleeps), incl. states with exactly one finished invocation;
+       (6) partially purged stores: one component emptied alone (orchestrator swept past the retention with the
+           controlled clock, orchestrator / state backend / broker / trigger purge) with live and final
+           invocations present; single-invocation routes are requested for every id ever created.
 oracle: before == after on the implementation's read-out (independent of the model).
 """
 from __future__ import annotations
@@ -67,7 +70,10 @@ MANIFEST = {
             "AGED states: while the request is served the wall clock seen by pynenc and pynmon is ahead of each configured "
             "duration (final-invocation retention, dead-runner and stuck-invocation thresholds, event retention; read off the live "
             "config objects; controlled clock, nothing sleeps), on states with exactly one finished invocation, a failed one, and a "
-            "rich mix, so that time-driven housekeeping reachable from a page shows up in the read-out.",
+            "rich mix, so that time-driven housekeeping reachable from a page shows up in the read-out. Partially purged stores are "
+            "built for each component alone (orchestrator auto-purge past the retention via the controlled clock, orchestrator.purge, "
+            "state_backend.purge, broker.purge, trigger.purge; live and final invocations present) and the invocation / list / "
+            "family-tree / workflow / task / call routes are requested on them, single-invocation routes for every id ever created.",
     "note": "Trusted: Coq kernel; AST translator (fail-closed: unknown calls are mutating; unrecognised queue-view shape degrades "
             "to the committed default and the read-out decides; harness/translate/readimpl.py degrades the same way on SQL text it "
             "cannot resolve or calls on other components outside the API table; attributes named lock/cache/logger/thread are not "
@@ -153,6 +159,12 @@ class World:
                 app.broker.route_invocation(self.ids[o[1] % len(self.ids)])
         elif k == "purge":
             getattr(app, o[1]).purge()
+        elif k == "auto_purge":       # the retention sweep runs o[1] seconds later (controlled clock): final invocations
+            try:                      # leave the orchestrator, every other store keeps them
+                with ShiftedClock(float(o[1])), NoLockWait():
+                    app.orchestrator.auto_purge()
+            except Exception:  # noqa: BLE001 - a sweep that fails leaves the state as it is
+                pass
         elif k == "drop_record":      # partially purged store: one stored invocation record disappears
             if self.ids:
                 self.drop_record(self.ids[o[1] % len(self.ids)])
@@ -636,6 +648,44 @@ AGED_STATES = [
 ]
 
 
+# partially purged stores: ONE component emptied (or swept past the retention) while the others keep their data,
+# with live (REGISTERED / PENDING / RUNNING) and final invocations present
+_PP_BASE = [("heartbeat", "r1"), ("call", "ok"), ("call", "fail"), ("call", "ok"), ("call", "ok"), ("call", "fail"),
+            ("run", "r1"), ("run", "r2"), ("claim", "r1"), ("start", "r2")]
+PARTIALLY_PURGED = [
+    ("orchestrator_auto_purged", _PP_BASE + [("auto_purge", 40 * 86400.0)]),
+    ("orchestrator_purged", _PP_BASE + [("purge", "orchestrator")]),
+    ("state_backend_purged", _PP_BASE + [("purge", "state_backend")]),
+    ("broker_purged", _PP_BASE + [("purge", "broker")]),
+    ("trigger_purged", _PP_BASE + [("purge", "trigger")]),
+]
+INVOCATION_ROUTE_RE = re.compile(r"invocation|family|workflow|calls|tasks|^/$|orchestrator|state-backend")
+
+
+def run_partially_purged(ctx: Ctx, scratch: str, client, live_get, stats: dict, distinct: set, per_route: int) -> int:
+    """the routes that read one invocation / list invocations / draw family trees, on every partially purged state;
+    routes with an {invocation_id} are requested for EVERY id ever created (final, live, record kept or gone)"""
+    n = 0
+    for kind in ("mem", "sqlite"):
+        for sname, sops in PARTIALLY_PURGED:
+            w = build_world(kind, scratch, sops)
+            w.activate()
+            for (m, path, mod, fn, robj) in live_get:
+                if not INVOCATION_ROUTE_RE.search(path):
+                    continue
+                if "{invocation_id}" in path:
+                    urls = [path.replace("{invocation_id}", str(i)) for i in w.ids]
+                else:
+                    urls = gen_requests(ctx.rng, w, path, robj, mod, per_route)
+                for url in urls:
+                    request_and_judge(ctx, w, client, path, url, stats,
+                                      {"kind": "route", "backend": kind, "ops": w.history}, None)
+                    n += 1
+                    distinct.add((kind, "partial", sname, path, urls.index(url) if "{invocation_id}" in path else url))
+            stats["partially_purged_states"][f"{kind}:{sname}"] = n
+    return n
+
+
 def valid_values(w: World, name: str, typ: str) -> list | None:
     """values of a query parameter that SELECT something in the current state (None: not a filter we know)"""
     from pynenc.invocation.status import InvocationStatus as S
@@ -1011,7 +1061,8 @@ def main(ctx: Ctx) -> int:
                 json.dumps(impl_info["rows_with_effects_other_than_reads"])[:1500])
     ctx.prove("Props/C20.v")
     stats: dict = {"status_codes": {}, "changed": {}, "api_calls": {}, "api_outcomes": {}, "requests_per_route": {},
-                   "flavours": {}, "queue_lengths": {}, "filter_matrix_requests": {}, "clock_shifts_s": {}}
+                   "flavours": {}, "queue_lengths": {}, "filter_matrix_requests": {}, "clock_shifts_s": {},
+                   "partially_purged_states": {}}
     pm, client = monitor()
     live = [r for r in live_routes(pm) if r[2].startswith("pynmon")]
     live_get = [r for r in live if r[0] == "GET"]
@@ -1075,6 +1126,8 @@ def main(ctx: Ctx) -> int:
                     n_eval += run_aged(ctx, w, client, live_get, None, stats, distinct, [shift],
                                        3 if ctx.thorough else (2 if sname == "rich" else 1))
                     n_eval += run_api_level(ctx, build_world(kind, scratch, sops), reached, stats, shift=shift)
+        # ---- (2d) partially purged stores (one component emptied / swept past the retention, the others intact)
+        n_eval += run_partially_purged(ctx, scratch, client, live_get, stats, distinct, 3 if ctx.thorough else 2)
         # ---- (3) API level
         n_eval += run_broker_sequences(ctx, scratch, 400 if ctx.thorough else 30, stats)
         n_states = 24 if ctx.thorough else 3
